@@ -262,7 +262,27 @@ func (fr *frame) modular(key string, c *Contract, callee *ssa.Function, sig *typ
 	env.hints = nil
 	// post state: havoc assigned state
 	pre := st.clone()
-	for _, a := range c.Assigns {
+	assigns := c.Assigns
+	if !c.HasAssign {
+		// no frame given: every ghost variable the postconditions talk about may have changed
+		// (a contract that never mentions old(...) describes a read-only function)
+		refs := map[string]bool{}
+		mentionsOld := false
+		for _, cl := range c.Ensures {
+			if strings.Contains(cl.Src, "old(") {
+				mentionsOld = true
+			}
+		}
+		for _, cl := range c.Ensures {
+			if mentionsOld {
+				g.db.GhostRefs(cl.Src, map[string]bool{}, refs)
+			}
+		}
+		for _, k := range sortedStrs(refs) {
+			assigns = append(assigns, k)
+		}
+	}
+	for _, a := range assigns {
 		if strings.HasPrefix(a, "*") {
 			// cell pointed to by a parameter
 			pn := strings.TrimSpace(a[1:])
@@ -459,6 +479,25 @@ func (fr *frame) inline(callee *ssa.Function, c *Contract, args []Val, com *ssa.
 		if b.Parent() == callee && saveBlk != nil {
 			for k := range m {
 				ft.noteWrite(saveBlk, k)
+			}
+		}
+	}
+	for b, m := range ft.oldWrite {
+		if b.Parent() == callee && saveBlk != nil {
+			for k := range m {
+				ft.noteHeapWrite(saveBlk, k, nil)
+			}
+		}
+	}
+	for b, m := range ft.freshIn {
+		if b.Parent() == callee && saveBlk != nil {
+			for k, abs := range m {
+				for _, ab := range abs {
+					if ab.Parent() == callee {
+						ab = saveBlk // a cell allocated by the inlined callee is allocated "at the call"
+					}
+					ft.noteHeapWrite(saveBlk, k, ab)
+				}
 			}
 		}
 	}
